@@ -517,9 +517,13 @@ setup_seeds(void)
         break;
     case F_FSGDEC:
         add_seed_text("FSG_BEGIN g\nNUM_STATES 3\nSTART_STATE 0\nFINAL_STATE 2\nTRANSITION 0 1 0.5 go\nTRANSITION 1 2 1.0 forward\nTRANSITION 0 2 0.5\nFSG_END\n");
+        add_seed_text("FSG_BEGIN many\nNUM_STATES 2\nSTART_STATE 0\nFINAL_STATE 1\nTRANSITION 0 1 0.1 one\nTRANSITION 0 1 0.1 two\nTRANSITION 0 1 0.1 three\n"
+                      "TRANSITION 0 1 0.1 four\nTRANSITION 0 1 0.1 five\nTRANSITION 0 1 0.1 six\nTRANSITION 0 1 0.1 seven\nTRANSITION 0 1 0.1 eight\n"
+                      "TRANSITION 0 1 0.05 nine\nTRANSITION 0 1 0.05 ten\nTRANSITION 0 1 0.05 eleven\nTRANSITION 0 1 0.05 twelve\nTRANSITION 1 0 0.5\nFSG_END\n");
         break;
     case F_JSGFDEC:
         add_seed_text("#JSGF V1.0; grammar g; public <s> = go [ forward ] | <x>+; <x> = forward go;");
+        add_seed_text("#JSGF V1.0; grammar many; public <s> = ( one | two | three | four | five | six | seven | eight | nine | ten | eleven | twelve )+;");
         break;
     }
 }
@@ -696,7 +700,13 @@ main(int argc, char **argv)
         FILE *fp;
         snprintf(dp, sizeof dp, "%s.%d.dic", getenv("MC_OUT") ? getenv("MC_OUT") : "/var/tmp/mc_parse", (int)getpid());
         fp = fopen(dp, "w");
-        fputs("go G OW\ngo(2) G AH\nforward F AO R W ER D\n", fp);
+        /* a dozen words with alternate pronunciations: a grammar over them makes the vocabulary of the FSG grow again
+         * after its alternate and filler word sets exist */
+        fputs("go G OW\ngo(2) G AH\nforward F AO R W ER D\n"
+              "one W AH N\none(2) HH W AH N\ntwo T UW\ntwo(2) T AH\nthree TH R IY\nthree(2) TH ER IY\nfour F AO R\nfour(2) F OW R\n"
+              "five F AY V\nfive(2) F AY F\nsix S IH K S\nsix(2) S IH K\nseven S EH V AH N\nseven(2) S EH V N\neight EY T\neight(2) EY\n"
+              "nine N AY N\nnine(2) N AY\nten T EH N\nten(2) T IH N\neleven IH L EH V AH N\neleven(2) L EH V AH N\ntwelve T W EH L V\ntwelve(2) T W EH L\n",
+              fp);
         fclose(fp);
         config_set_str(cfg, "hmm", MODELDIR);
         config_set_str(cfg, "dict", dp);
